@@ -170,7 +170,7 @@ func intVal(v interface{ String() string }) (int64, bool) {
 
 // tableLookupOK: literal l states that a comma-ok lookup in the package-level map `global`, keyed by the
 // Version field of base, succeeded.
-func lookupOn(v ssa.Value, globalSuffix string, w *World) *ssa.Lookup {
+func lookupOn(v ssa.Value, tableType string, w *World) *ssa.Lookup {
 	ex, ok := v.(*ssa.Extract)
 	if !ok {
 		return nil
@@ -179,11 +179,17 @@ func lookupOn(v ssa.Value, globalSuffix string, w *World) *ssa.Lookup {
 	if !ok || !lk.CommaOk {
 		return nil
 	}
-	if !strings.HasSuffix(w.Expr(lk.X), globalSuffix) {
+	if !exprIsGlobalOfType(w, w.Expr(lk.X), keyidPkg, tableType) {
 		return nil
 	}
 	return lk
 }
+
+// the two version-indexed tables of package keyid, identified by type
+const (
+	keyidCheckerTable  = "map[uint16]func(*" + RepoMod + "/keyid.KeyID) error"
+	keyidRequiredTable = "map[uint16][]string"
+)
 
 func checkKeyidMarshal(c *Ctx, kid *types.Named) {
 	w := c.w
@@ -212,13 +218,13 @@ func checkKeyidMarshal(c *Ctx, kid *types.Named) {
 		n++
 		b := r.Block()
 		okVer := f.Any(b, func(l Lit) bool {
-			lk := lookupOn(l.V, "keyid.sanityCheckerByVersion", w)
+			lk := lookupOn(l.V, keyidCheckerTable, w)
 			return lk != nil && l.Pol && w.Expr(lk.Index) == "p0.Version"
 		})
 		c.Check(okVer, "R3.gate", "Marshal|version supported", w.Pos(r.Pos()), "must-fact: checker table has the receiver's version", "Marshal can succeed for a version that has no checker (unsupported version)")
 		okChk := false
 		if chk != nil && len(chk.Call.Args) == 1 && w.Expr(chk.Call.Args[0]) == "p0" {
-			if lk := lookupOn(chk.Call.Value, "keyid.sanityCheckerByVersion", w); lk != nil {
+			if lk := lookupOn(chk.Call.Value, keyidCheckerTable, w); lk != nil {
 				if isNil, known := f.KnownNil(b, chk); known && isNil {
 					okChk = true
 				}
@@ -283,7 +289,7 @@ func checkKeyidUnmarshal(c *Ctx, kid *types.Named) {
 				continue
 			}
 			ex := w.Expr(lk.X)
-			if strings.HasSuffix(ex, "keyid.requiredKeysByVersion") {
+			if exprIsGlobalOfType(w, ex, keyidPkg, keyidRequiredTable) {
 				reqLookup = lk
 			}
 			if strings.HasPrefix(ex, "makemap<") || strings.HasPrefix(ex, "alloc<map[") {
@@ -345,7 +351,7 @@ func checkKeyidUnmarshal(c *Ctx, kid *types.Named) {
 		isNil, known = f.KnownNil(b, jMap)
 		c.Check(known && isNil, "R3.gate", "Unmarshal|key-map decode ok", w.Pos(r.Pos()), "must-fact json.Unmarshal(map) == nil", "Unmarshal can succeed although decoding the key map failed")
 		okVer := f.Any(b, func(l Lit) bool {
-			lk := lookupOn(l.V, "keyid.requiredKeysByVersion", w)
+			lk := lookupOn(l.V, keyidRequiredTable, w)
 			return lk != nil && l.Pol && strings.HasSuffix(w.Expr(lk.Index), ".Version")
 		})
 		c.Check(okVer, "R3.gate", "Unmarshal|version supported", w.Pos(r.Pos()), "must-fact: required-key table has the decoded version", "Unmarshal can succeed for an unsupported version")
@@ -361,7 +367,7 @@ func checkKeyidUnmarshal(c *Ctx, kid *types.Named) {
 		c.Check(done, "R3.gate", "Unmarshal|required-key loop exhausted", w.Pos(r.Pos()), "must-fact: range over the required keys ran to completion", "Unmarshal can succeed before every required key was looked up (loop left early)")
 		okChk := false
 		if chk != nil && len(chk.Call.Args) == 1 && chk.Call.Args[0] == ssa.Value(dec) {
-			if lk := lookupOn(chk.Call.Value, "keyid.sanityCheckerByVersion", w); lk != nil && strings.HasSuffix(w.Expr(lk.Index), ".Version") {
+			if lk := lookupOn(chk.Call.Value, keyidCheckerTable, w); lk != nil && strings.HasSuffix(w.Expr(lk.Index), ".Version") {
 				if isNil, known := f.KnownNil(b, chk); known && isNil {
 					okChk = true
 				}
